@@ -147,12 +147,14 @@ class WidthProbes(object):
                 return None
             return Spec(mod, e, nb + 1, sc, -(1 << nb), nb, marker=True)
         if mod == '204':
-            y = max(1, min(rng.choice([1, 2, 3, 4, 6, 7, 8, 9, 12, 16, nb, nb + 1, max(nb - 1, 1)]), 64))
+            # the associated field next to an element of nb bits: wider than the element (2^nb - 1 is then an ordinary value of it),
+            # as wide, narrower
+            y = max(1, min(rng.choice([nb + 1, nb + 1, nb + 2, nb + rng.randint(1, 8), nb, max(nb - 1, 1), 1, 2, 4, 8, 16]), 64))
             return Spec(mod, e, y, nb=y, pre=[204000 + y, 31021], post=[204000], lead=[rng.randint(0, 62)], kind='a', extra_w=nb)
         if mod == '206':
             lid = rng.choice(LOCALS)
             nl = int(b[lid][4]) if lid in b else 0
-            y = max(1, min(rng.choice([1, 2, 5, 8, 13, 24, 33, 64] + ([nl, nl + 1, nl - 1] if nl > 1 else [])), 64))
+            y = max(1, min(rng.choice([1, 2, 5, 8, 13, 24, 33, 64] + ([nl + 1, nl + 1, nl + 2, nl + rng.randint(1, 8), nl + rng.randint(1, 8), nl, nl - 1] if nl > 1 else [])), 64))
             return Spec(mod, lid, y, nb=y, per=[206000 + y, lid], kind='u', extra_w=nl or None)
         if mod == '208':
             nbytes = nb // 8
